@@ -688,3 +688,85 @@ type lockInv struct {
 func (e *Engine) lockInvs() []lockInv { return nil }
 
 var _ = time.Now
+
+// purityScan decides syntactically whether a function's result depends only on
+// its (scalar) arguments: no heap reads through parameters, no stores except to
+// its own locals, no calls except to functions that are themselves declared
+// deterministic (and pass the same scan) or to known pure library functions,
+// globals only read. Returns "" when pure, else the first offending construct.
+func (e *Engine) purityScan(fn *ssa.Function) string {
+	for _, p := range fn.Params {
+		if !isScalarType(p.Type()) {
+			return "parameter " + p.Name() + " is not a scalar"
+		}
+		switch under(p.Type()).(type) {
+		case *types.Pointer, *types.Interface, *types.Map, *types.Chan, *types.Signature:
+			return "parameter " + p.Name() + " is a reference"
+		}
+	}
+	if len(fn.FreeVars) > 0 {
+		return "closure with free variables"
+	}
+	rootOf := func(v ssa.Value) ssa.Value {
+		for {
+			switch x := v.(type) {
+			case *ssa.FieldAddr:
+				v = x.X
+			case *ssa.IndexAddr:
+				v = x.X
+			default:
+				return v
+			}
+		}
+	}
+	for _, b := range fn.Blocks {
+		for _, in := range b.Instrs {
+			switch x := in.(type) {
+			case *ssa.Store:
+				if _, ok := rootOf(x.Addr).(*ssa.Alloc); !ok {
+					return "store outside local variables"
+				}
+			case *ssa.UnOp:
+				if x.Op == token.MUL {
+					switch rootOf(x.X).(type) {
+					case *ssa.Alloc, *ssa.Global:
+					default:
+						return "load through a non-local pointer"
+					}
+				}
+				if x.Op == token.ARROW {
+					return "channel receive"
+				}
+			case *ssa.Call:
+				if b, ok := x.Call.Value.(*ssa.Builtin); ok {
+					switch b.Name() {
+					case "len", "cap", "min", "max", "ssa:deferstack":
+						continue
+					}
+					return "builtin " + b.Name()
+				}
+				callee := x.Call.StaticCallee()
+				if callee == nil {
+					return "dynamic call"
+				}
+				switch callee.String() {
+				case "math/bits.Len64", "math/bits.Len", "math/bits.LeadingZeros64", "math/bits.TrailingZeros64":
+					continue
+				}
+				ct := e.contractFor(callee)
+				if ct == nil || ct.Opts["deterministic"] == "" {
+					if ct != nil && ct.Inline || ct == nil && inRepo(fnPkgPath(callee)) && len(callee.Blocks) > 0 {
+						if why := e.purityScan(callee); why != "" {
+							return "callee " + relName(callee) + ": " + why
+						}
+						continue
+					}
+					return "call to " + callee.String() + " which is not declared deterministic"
+				}
+			case *ssa.Go, *ssa.Defer, *ssa.Send, *ssa.MapUpdate, *ssa.Select, *ssa.MakeChan:
+				return fmt.Sprintf("%T", in)
+			}
+		}
+	}
+	return ""
+}
